@@ -468,8 +468,9 @@ def unitsSqrtOk : Option (List Int) → Bool
   | none => true
   | some e => e.all fun x => x % 2 == 0
 
-/-- `Scalar.__pow__(expo)` for a unit-less base. `negInt`: the exponent is of integer kind and has a negative value
-    ("without this step, negative int exponents on int values truncate to 0": the exponent is converted to float).
+/-- `Scalar.__pow__(expo)` for a unit-less base. `negInt`: the exponent is of integer kind and has a negative value at an
+    UNMASKED position ("without this step, negative int exponents on int values truncate to 0 … only the exponents that
+    are in use decide this": `np.any((expo_values < 0) & expo.antimask)`; then the exponent is converted to float).
     `none` = outside this view (powers of other classes: C16; powers of quantities with units: C12). -/
 def powDispatch (a b : Desc) (negInt : Bool) : Option (M Res) :=
   let a' := if a.cls == .boolean then asInt a else a          -- Boolean.__pow__: self.as_int() ** arg
